@@ -169,6 +169,8 @@ class Evaluator(object):
             t = self._table('module', e.id)
             return t if t is not None else Ref(e.id)
         if isinstance(e, ast.Attribute):
+            if isinstance(e.value, ast.Name) and (e.value.id + '.' + e.attr) in env:
+                return env[e.value.id + '.' + e.attr]
             base = self.expr(e.value, env)
             if isinstance(base, Ref):
                 if self.self_name is not None and base.dotted in (self.self_name, 'cls', 'type(%s)' % self.self_name, self.self_name + '.__class__'):
@@ -204,6 +206,11 @@ class Evaluator(object):
                     return base.elts[k.v]
                 except IndexError:
                     raise Raised('IndexError', e.lineno)
+            if isinstance(base, Const) and isinstance(base.v, str) and isinstance(k, Const) and isinstance(k.v, int):
+                try:
+                    return Const(base.v[k.v])
+                except IndexError:
+                    raise Raised('IndexError', e.lineno)
             return CallT(Ref('getitem'), [base, k], {})
         if isinstance(e, ast.Call):
             return self.call(e, env)
@@ -218,6 +225,8 @@ class Evaluator(object):
                 return Const(l.v + r.v)
             if isinstance(e.op, ast.Add) and isinstance(l, TupleV) and isinstance(r, TupleV):
                 return TupleV(l.elts + r.elts)
+            if isinstance(e.op, ast.Mod) and isinstance(l, Const) and isinstance(l.v, str) and isinstance(r, Const) and l.v.count('%') == 1 and '%s' in l.v:
+                return Const(l.v % (r.v,))
             return CallT(Ref(type(e.op).__name__), [l, r], {})
         if isinstance(e, ast.JoinedStr):
             return CallT(Ref('format'), [Const(ast.unparse(e))], {})
@@ -262,10 +271,27 @@ class Evaluator(object):
                 return Const(len(args[0].elts))
             if fv.dotted == 'str' and len(args) == 1 and isinstance(args[0], Const) and isinstance(args[0].v, str):
                 return args[0]
-        if isinstance(f, ast.Attribute) and f.attr in ('strip', 'lower') and not args and not kw:
+            if fv.dotted in ('str', 'repr') and len(args) == 1 and isinstance(args[0], Const) and isinstance(args[0].v, (int, float)) and not isinstance(args[0].v, bool):
+                return Const(str(args[0].v) if fv.dotted == 'str' else repr(args[0].v))
+            if fv.dotted in ('math.isinf', 'math.isnan', 'math.isfinite', 'isinf', 'isnan', 'isfinite') and len(args) == 1 and isinstance(args[0], Const) \
+                    and isinstance(args[0].v, float):
+                import math as _m
+                return Const(getattr(_m, fv.dotted.split('.')[-1])(args[0].v))
+        if isinstance(f, ast.Attribute) and f.attr in ('strip', 'lower', 'isalpha', 'isidentifier', 'isdigit', 'lstrip') and not args and not kw:
             base = self.expr(f.value, env)
             if isinstance(base, Const) and isinstance(base.v, str):
                 return Const(getattr(base.v, f.attr)())
+        if isinstance(f, ast.Attribute) and f.attr in ('startswith', 'endswith') and len(args) == 1 and not kw:
+            base = self.expr(f.value, env)
+            if isinstance(base, Const) and isinstance(base.v, str) and isinstance(args[0], Const) and isinstance(args[0].v, str):
+                return Const(getattr(base.v, f.attr)(args[0].v))
+        if isinstance(f, ast.Attribute) and f.attr == 'format' and not kw:
+            base = self.expr(f.value, env)
+            if isinstance(base, Const) and isinstance(base.v, str) and all(isinstance(a_, Const) for a_ in args) and '{:' not in base.v and '{!' not in base.v:
+                try:
+                    return Const(base.v.format(*[a_.v for a_ in args]))
+                except (IndexError, KeyError, ValueError):
+                    pass
         return CallT(fv, args, kw, e.lineno)
 
     # ------------------------------------------------------------------ conditions
@@ -309,6 +335,8 @@ class Evaluator(object):
                         raise Unknown('membership in %r' % right)
                     if isinstance(op, ast.NotIn):
                         r = not r
+                elif isinstance(left, Const) and isinstance(right, Const) and isinstance(left.v, (int, float)) and isinstance(right.v, (int, float)):
+                    r = {ast.Lt: left.v < right.v, ast.LtE: left.v <= right.v, ast.Gt: left.v > right.v, ast.GtE: left.v >= right.v}[type(op)]
                 else:
                     raise Unknown('ordering comparison %s' % ast.unparse(e)[:60])
                 if not r:
@@ -335,6 +363,9 @@ class Evaluator(object):
                 raise Unknown('unpacking of %r' % v)
             for t, x in zip(target.elts, v.elts):
                 self.bind(t, x, env)
+        elif isinstance(target, ast.Attribute) and isinstance(target.value, ast.Name):
+            env[target.value.id + '.' + target.attr] = v          # self.x = v: later reads of self.x see v
+            env.setdefault('__stores__', TupleV([])).elts.append(TupleV([Const(ast.unparse(target)), v]))
         elif isinstance(target, (ast.Attribute, ast.Subscript)):
             env.setdefault('__stores__', TupleV([])).elts.append(TupleV([Const(ast.unparse(target)), v]))
         else:
